@@ -751,56 +751,47 @@ example : C10Misc.neighbours [3, 3] [false, true, false, true, true, true, false
 section SurfB9
 open Mahotas.C10Surf
 
-/-- **B9, `sum_rect` — exact characterisation.** For ALL integers `y0, x0, y1, x1` and all sizes `N0, N1` (any sign),
-the four reads `integral.at(y0',x0')`, `at(y0',x1')`, `at(y1',x0')`, `at(y1',x1')` behind the clamps
-`y0' = max(y0-1,0)`, `x0' = max(x0-1,0)`, `y1' = min(y1-1,N0-1)`, `x1' = min(x1-1,N1-1)` are all inside the `N0 x N1`
-integral image IF AND ONLY IF the image is not empty (`N0, N1 ≥ 1`), the window does not begin beyond the image
-(`y0 ≤ N0`, `x0 ≤ N1`) and does not end before it (`y1 ≥ 1`, `x1 ≥ 1`). The clamps are one-sided: `sum_rect` is NOT safe
-for arbitrary arguments (`y1 ≤ 0` reads row `y1-1 < 0`, `y0 > N0` reads row `y0-1 ≥ N0`); for an empty image every call
-reads out of bounds (`at(0,·)` of zero rows). -/
-theorem C10_surf_sum_rect_in_bounds_iff (n0 n1 y0 x0 y1 x1 : Int) :
-    sAllOk (sumRectAccesses n0 n1 y0 x0 y1 x1) = true ↔
-      1 ≤ n0 ∧ 1 ≤ n1 ∧ y0 ≤ n0 ∧ x0 ≤ n1 ∧ 1 ≤ y1 ∧ 1 ≤ x1 := by
-  rw [sAllOk_iff]; exact sumRect_ok_iff n0 n1 y0 x0 y1 x1
+/-- **B9, `sum_rect` (as repaired by 6faa5ae).** For ALL integers `y0, x0, y1, x1` — every window, also one that ends
+before the image or begins beyond it — and every image size: an empty image (`N0 ≤ 0` or `N1 ≤ 0`) performs NO access
+(`return 0.`), and for a non-empty image the four reads `integral.at(y0',x0')`, `at(y0',x1')`, `at(y1',x0')`, `at(y1',x1')`
+behind the two-sided clamps `v' = min(max(v-1, 0), N-1)` of all four corners are inside the `N0 x N1` integral image. No
+precondition is left. -/
+theorem C10_surf_sum_rect_in_bounds (n0 n1 y0 x0 y1 x1 : Int) :
+    sAllOk (sumRectAccesses n0 n1 y0 x0 y1 x1) = true ∧
+    (sumRectAccesses n0 n1 y0 x0 y1 x1).length = if n0 ≤ 0 ∨ n1 ≤ 0 then 0 else 8 :=
+  ⟨(sAllOk_iff _).2 (sumRect_ok n0 n1 y0 x0 y1 x1), sumRect_length n0 n1 y0 x0 y1 x1⟩
 
+/-! non-vacuity: windows inside, beyond, before the image (the witnesses of the repaired defect) and an empty image -/
 example : sAllOk (sumRectAccesses 40 40 (-5) 3 7 50) = true ∧ (sumRectAccesses 40 40 (-5) 3 7 50).length = 8 ∧
-    sAllOk (sumRectAccesses 40 40 100 0 200 5) = false ∧ sAllOk (sumRectAccesses 40 40 (-5) 0 0 5) = false ∧
-    sAllOk (sumRectAccesses 0 4 0 0 1 1) = false := by decide
+    sAllOk (sumRectAccesses 40 40 100 0 200 5) = true ∧ (sumRectAccesses 40 40 100 0 200 5).map (·.i) = [39, 0, 39, 4, 39, 0, 39, 4] ∧
+    sAllOk (sumRectAccesses 40 40 (-5) 0 0 5) = true ∧ sumRectAccesses 0 4 0 0 1 1 = [] := by decide
 
-/-- **B9, `sum_rect` as the entry point `_surf.sum_rect` runs it** (four arbitrary C `int`s, image sizes below 2^31; the
-decrement `v-1` wraps at `INT_MIN` as compiled with `-fno-strict-overflow`): in bounds iff the image is not empty,
-`y0 ≤ N0`, `x0 ≤ N1` and neither is `INT_MIN` (whose decrement is `INT_MAX`), and `y1 ≥ 1`, `x1 ≥ 1` (or `INT_MIN`,
-which the upper clamp then maps to the last row/column). -/
-theorem C10_surf_sum_rect_entry_iff (n0 n1 y0 x0 y1 x1 : Int)
-    (hn0 : n0 ≤ 2147483647) (hn1 : n1 ≤ 2147483647)
-    (hy0 : -2147483648 ≤ y0 ∧ y0 ≤ 2147483647) (hx0 : -2147483648 ≤ x0 ∧ x0 ≤ 2147483647)
-    (hy1 : -2147483648 ≤ y1 ∧ y1 ≤ 2147483647) (hx1 : -2147483648 ≤ x1 ∧ x1 ≤ 2147483647) :
-    sAllOk (sumRectEntry n0 n1 y0 x0 y1 x1) = true ↔
-      1 ≤ n0 ∧ 1 ≤ n1 ∧ (y0 ≤ n0 ∧ y0 ≠ -2147483648) ∧ (x0 ≤ n1 ∧ x0 ≠ -2147483648) ∧
-      (1 ≤ y1 ∨ y1 = -2147483648) ∧ (1 ≤ x1 ∨ x1 = -2147483648) := by
-  rw [sAllOk_iff]; exact sumRectEntry_ok_iff n0 n1 y0 x0 y1 x1 hn0 hn1 hy0 hx0 hy1 hx1
+/-- **B9, `sum_rect` as the entry point `_surf.sum_rect` runs it** (four arbitrary C `int`s; the decrement `v-1` wraps at
+`INT_MIN` to `INT_MAX` as compiled with `-fno-strict-overflow`, modelled by `wrap32`): whatever the wrapped values are, the
+two-sided clamps keep all reads inside a non-empty image, and an empty one is not read. -/
+theorem C10_surf_sum_rect_entry_in_bounds (n0 n1 y0 x0 y1 x1 : Int) :
+    sAllOk (sumRectEntry n0 n1 y0 x0 y1 x1) = true :=
+  (sAllOk_iff _).2 (sumRectEntry_ok n0 n1 y0 x0 y1 x1)
 
-example : sAllOk (sumRectEntry 5 5 (-2147483648) 0 3 3) = false ∧ sAllOk (sumRectEntry 5 5 0 0 (-2147483648) 3) = true ∧
-    sAllOk (sumRectEntry 5 5 2 2 4 4) = true := by decide
+example : sAllOk (sumRectEntry 5 5 (-2147483648) 0 3 3) = true ∧ (sumRectEntry 5 5 (-2147483648) 0 3 3).length = 8 ∧
+    sAllOk (sumRectEntry 5 5 2 2 4 4) = true ∧ sumRectEntry 5 0 2 2 4 4 = [] := by decide
 
 /-- **B9, `csum_rect`.** For all integers: `csum_rect(integral, y, x, dy, dx, h, w)` (`y0 = y+dy-h/2`, `x0 = x+dx-w/2` with C
-division, `y1 = y0+h`, `x1 = x0+w`) reads inside the image iff the image is not empty, `y0 ≤ N0`, `x0 ≤ N1`, `y1 ≥ 1`, `x1 ≥ 1`. -/
-theorem C10_surf_csum_rect_in_bounds_iff (n0 n1 y x dy dx h w : Int) :
-    sAllOk (csumRectAccesses n0 n1 y x dy dx h w) = true ↔
-      1 ≤ n0 ∧ 1 ≤ n1 ∧ y + dy - Int.tdiv h 2 ≤ n0 ∧ x + dx - Int.tdiv w 2 ≤ n1 ∧
-      1 ≤ y + dy - Int.tdiv h 2 + h ∧ 1 ≤ x + dx - Int.tdiv w 2 + w := by
-  rw [sAllOk_iff]; exact csumRect_ok_iff n0 n1 y x dy dx h w
+division, `y1 = y0+h`, `x1 = x0+w`) reads inside the image (nothing for an empty image). -/
+theorem C10_surf_csum_rect_in_bounds (n0 n1 y x dy dx h w : Int) :
+    sAllOk (csumRectAccesses n0 n1 y x dy dx h w) = true :=
+  (sAllOk_iff _).2 (csumRect_ok n0 n1 y x dy dx h w)
 
-example : sAllOk (csumRectAccesses 9 9 4 4 (-2) 2 3 3) = true ∧ sAllOk (csumRectAccesses 9 9 0 4 (-2) 2 1 3) = false := by decide
+example : sAllOk (csumRectAccesses 9 9 4 4 (-2) 2 3 3) = true ∧ sAllOk (csumRectAccesses 9 9 0 4 (-2) 2 1 3) = true ∧
+    (csumRectAccesses 9 9 0 4 (-2) 2 1 3).length = 8 := by decide
 
 /-- **B9, `build_pyramid`.** For every image size `N0, N1` (any integers, also smaller than the filters), every number of
 octaves and intervals and every `initial_step_size ≥ 1` (the guard of `check_pyramid_parameters`, fix d1a663a): every
 access of the fill loops — `pyramid[o]` with `o < nr_octaves`; the 32 reads of the eight `csum_rect` windows (Dxx, Dyy, Dxy
 lobes) at every sample `(y, x)`, `y = border, border+step, … < N0-border`; the write
 `pyramid[o].at(i, y/step_size, x/step_size)` into the array of shape `(nr_intervals, N0/step_size, N1/step_size)` — is in
-bounds, and every `y += step_size` loop terminates (`step_size ≥ 1`). The `csum_rect` windows may stick out of the image
-(the clamps of `sum_rect` take care of that); what makes them safe is `2 ≤ y ≤ N0-1` (window neither before nor beyond the
-image, see `C10_surf_sum_rect_in_bounds_iff`), which holds as `border ≥ 8·step`. The write needs `border ≥ step`
+bounds, and every `y += step_size` loop terminates (`step_size ≥ 1`). The `csum_rect` windows may stick out of the image:
+the two-sided clamps of `sum_rect` take care of that (`C10_surf_sum_rect_in_bounds`). The write needs `border ≥ step`
 (`y < N0 - border` gives `y/step < N0/step` although `N0/step` rounds down). Arithmetic is over ℤ here; that the C `int`s
 do not overflow is `C10_surf_pyramid_no_int_overflow`. -/
 theorem C10_surf_pyramid_in_bounds (n0 n1 noct nint init : Int) (hi : 1 ≤ init) :
@@ -859,32 +850,27 @@ theorem C10_surf_interest_points_in_bounds (nint nr nc bs : Int) (hbs : 0 ≤ bs
 example : (ipScanAccesses 3 3 3 0).length = 171 ∧ sAllOk (ipScanAccesses 3 3 3 0) = true ∧
     sAllOk (ipScanAccesses 3 3 3 (-1)) = false := by decide +kernel
 
-/-- **B9, gradient samples (`haar_x`, `haar_y`) — exact characterisation.** For all integers `y, x, w`: the 16 reads of
-`haar_x(integral, y, x, w)` and `haar_y(integral, y, x, w)` are inside the image iff `1 ≤ y ≤ N0`, `1 ≤ x ≤ N1` and the window
-`[y - w/2, y - w/2 + w)` / `[x - w/2, …)` neither begins beyond nor ends before the image (automatic for `w ≥ 0`). In particular a
-sample position with `y = 0` or `x = 0` (row/column 0 of the image!) reads `integral.at(-1, ·)`. -/
-theorem C10_surf_haar_in_bounds_iff (n0 n1 y x w : Int) :
-    sAllOk (haarAccesses n0 n1 y x w) = true ↔
-      1 ≤ y ∧ y ≤ n0 ∧ 1 ≤ x ∧ x ≤ n1 ∧
-      y - Int.tdiv w 2 ≤ n0 ∧ 1 ≤ y - Int.tdiv w 2 + w ∧ x - Int.tdiv w 2 ≤ n1 ∧ 1 ≤ x - Int.tdiv w 2 + w := by
-  rw [sAllOk_iff]; exact haar_ok_iff n0 n1 y x w
+/-- **B9, gradient samples (`haar_x`, `haar_y`).** For all integers `y, x, w` and every image size: the 16 reads of
+`haar_x(integral, y, x, w)` and `haar_y(integral, y, x, w)` are inside the image — also for a sample position in row or
+column 0 (`y = 0`: the top window ends before the image; since 6faa5ae it is empty instead of reading `integral.at(-1, ·)`). -/
+theorem C10_surf_haar_in_bounds (n0 n1 y x w : Int) :
+    sAllOk (haarAccesses n0 n1 y x w) = true :=
+  (sAllOk_iff _).2 (haar_ok n0 n1 y x w)
 
-/-- **B9, descriptor / orientation sampling windows, under an explicit hypothesis.** The sample positions of
-`compute_dominant_angle` (`round(scale*r + center.y)`, …) and `compute_surf_descriptor` (`int(p.y())`, `int(p.x())` of the
-rotated grid) and the window sizes (`(~1)&int(4*scale+.5)`, `int(2*scale+.5)`) are float-derived; here they are ARBITRARY
-integers subject to: every position satisfies `1 ≤ y ≤ N0`, `1 ≤ x ≤ N1`, and `w ≥ 0` (true for every `scale ≥ 0`). Then all
-reads of all samples are in bounds. The hypothesis on the positions is NOT implied by the border test of
-`compute_descriptors` for small scales (`C10_surf_descriptor_guard_insufficient`); the detector itself only produces
-`scale > 1.6`, for which `15.5*scale - 1 ≥ 14.15*scale + 1` keeps the rotated 20x20 grid at rows/columns ≥ 1 (paper argument,
-not formalised). -/
-theorem C10_surf_descriptor_windows_in_bounds (n0 n1 : Int) (pts : List (Int × Int)) (w : Int) (hw : 0 ≤ w)
-    (hp : ∀ p ∈ pts, (1 ≤ p.1 ∧ p.1 ≤ n0) ∧ (1 ≤ p.2 ∧ p.2 ≤ n1)) :
+/-- **B9, descriptor / orientation sampling windows.** The sample positions of `compute_dominant_angle`
+(`round(scale*r + center.y)`, …) and `compute_surf_descriptor` (`int(p.y())`, `int(p.x())` of the rotated grid) and the window
+sizes (`(~1)&int(4*scale+.5)`, `int(2*scale+.5)`) are float-derived; here they are ARBITRARY integers — no hypothesis on
+positions, window or scale is needed any more: all reads of all samples are in bounds. (On the pinned clamps this needed
+`1 ≤ y ≤ N0`, `1 ≤ x ≤ N1`, which the border test of `compute_descriptors` does not ensure for scales below ~1.47:
+`C10_surf_descriptor_pinned_guard_insufficient`.) -/
+theorem C10_surf_descriptor_windows_in_bounds (n0 n1 : Int) (pts : List (Int × Int)) (w : Int) :
     sAllOk (descWindowAccesses n0 n1 pts w) = true :=
-  (sAllOk_iff _).2 (descWindow_ok n0 n1 pts w hw hp)
+  (sAllOk_iff _).2 (descWindow_ok n0 n1 pts w)
 
-example : sAllOk (descWindowAccesses 9 9 [(1, 1), (9, 9), (4, 5)] 4) = true ∧
+example : sAllOk (descWindowAccesses 9 9 [(1, 1), (9, 9), (4, 5), (0, 3), (3, 0), (-7, 40)] 4) = true ∧
     (descWindowAccesses 9 9 [(1, 1), (9, 9), (4, 5)] 4).length = 96 ∧
-    sAllOk (haarAccesses 9 9 0 3 2) = false ∧ sAllOk (haarAccesses 9 9 3 0 0) = false := by decide
+    sAllOk (haarAccesses 9 9 0 3 2) = true ∧ sAllOk (haarAccesses 9 9 3 0 0) = true ∧
+    sAllOk (haarPinnedAccesses 9 9 0 3 2) = false := by decide
 
 /-- **B9, the descriptor vector.** The 16 cells of `for (r = -10; r < 10; r += 5) for (c = -10; c < 10; c += 5)` write
 `des[count++]` four times each: exactly the indices `0 … 63` of `double des[64]`; `compute_dominant_angle` takes 109 samples
@@ -893,18 +879,25 @@ theorem C10_surf_descriptor_index_in_bounds :
     sAllOk descIndexAccesses = true ∧ descIndexAccesses.map (·.i) = (List.range 64).map Int.ofNat ∧ angleGrid.length = 109 := by
   decide
 
-/-- **B9, the border test of `compute_descriptors` does NOT keep the samples inside (defect, confirmed with ASan on the
-real code).** In exact rational arithmetic (the doubles of the real code differ by rounding only; the values below are far
-from any rounding boundary): a 40x40 image, interest point `(15, 15)` with `scale = 1` (what `surf.dense(f, 1)` passes) and
-rotation `sin = -20/29`, `cos = 21/29` (`sin² + cos² = 1`). The border test accepts (`border_size = 31/2 = 15 ≤ 15`,
-`15 + 15 < 40`), the grid point `(x, y) = (-10, -10)` is sampled at `p.y = 15 - 410/29 ≈ 0.86`, i.e. row `int(p.y) = 0`, column 14,
-window `int(2*1+.5) = 2`, and `haar_y` reads `integral.at(-1, ·)`: out of bounds. -/
-theorem C10_surf_descriptor_guard_insufficient :
+/-- **B9, the PINNED clamps of `sum_rect` (history; NOT the current code).** Before 6faa5ae the clamps were one-sided
+(`y0' = max(y0-1,0)`, `x0' = max(x0-1,0)`, `y1' = min(y1-1,N0-1)`, `x1' = min(x1-1,N1-1)`, no test for an empty image): the
+reads were inside the image IF AND ONLY IF `N0, N1 ≥ 1`, `y0 ≤ N0`, `x0 ≤ N1`, `y1 ≥ 1`, `x1 ≥ 1`. -/
+theorem C10_surf_sum_rect_pinned_in_bounds_iff (n0 n1 y0 x0 y1 x1 : Int) :
+    sAllOk (sumRectPinnedAccesses n0 n1 y0 x0 y1 x1) = true ↔
+      1 ≤ n0 ∧ 1 ≤ n1 ∧ y0 ≤ n0 ∧ x0 ≤ n1 ∧ 1 ≤ y1 ∧ 1 ≤ x1 := by
+  rw [sAllOk_iff]; exact sumRectPinned_ok_iff n0 n1 y0 x0 y1 x1
+
+/-- **B9, why the repair was needed (about the PINNED clamps; the current code is safe by
+`C10_surf_descriptor_windows_in_bounds`).** In exact rational arithmetic: a 40x40 image, interest point `(15, 15)` with
+`scale = 1` (what `surf.dense(f, 1)` passes) and rotation `sin = -20/29`, `cos = 21/29` (`sin² + cos² = 1`). The border test of
+`compute_descriptors` accepts (`border_size = 31/2 = 15 ≤ 15`, `15 + 15 < 40`), the grid point `(x, y) = (-10, -10)` is sampled
+at row `int(p.y) = 0`, column 14, window `int(2*1+.5) = 2`; over the pinned clamps `haar_y` read `integral.at(-1, ·)` (the defect
+repaired by 6faa5ae, witnesses `corpus/C10/surf_*.json`), over the current clamps the same sample is in bounds. -/
+theorem C10_surf_descriptor_pinned_guard_insufficient :
     descGuard 40 40 15 15 1 = true ∧
     ((-20 / 29 : Rat) * (-20 / 29) + (21 / 29) * (21 / 29) = 1) ∧
     descSample 15 15 1 (-20 / 29) (21 / 29) (-10) (-10) = (0, 14) ∧ descWindow 1 = 2 ∧
-    sAllOk (haarAccesses 40 40 (descSample 15 15 1 (-20 / 29) (21 / 29) (-10) (-10)).1
-      (descSample 15 15 1 (-20 / 29) (21 / 29) (-10) (-10)).2 (descWindow 1)) = false := by
+    sAllOk (haarPinnedAccesses 40 40 0 14 2) = false ∧ sAllOk (haarAccesses 40 40 0 14 2) = true := by
   decide +kernel
 
 end SurfB9
